@@ -601,7 +601,7 @@ class State:
     # -------------------------------------------------- helpers
     def both(self, lines, resilient=False):
         if resilient:
-            impl = vlib.run_lines_resilient(self.gvh, [], lines, per_case_timeout=30, mem_kb=1500 * 1024)
+            impl = vlib.run_lines_resilient(self.gvh, [], lines, per_case_timeout=30, mem_kb=3 * 1024 * 1024)
             rc1 = 0
         else:
             rc1, impl, e1 = vlib.run_lines(self.gvh, [], lines, timeout=1800)
